@@ -121,6 +121,62 @@ def _work(args):
     return out
 
 
+def _work_int(args):
+    """integer parameters (resolutions, codes, vertex numbers, k ...) taken as arbitrary 32-bit values: a table subscript derived from the parameter
+    whose refined range on a path with exactly interpreted conditions reaches beyond the extent is attainable, hence definite"""
+    bc_path, fname, cfgname = args
+    m = ir.load(bc_path, [fname])
+    f = m.fn(fname)
+    out = []
+    for k, a in enumerate(f.args):
+        if a["type"] != "i32":
+            continue
+        pl = IdxPlugin(m, f, None)
+        try:
+            ex = Explorer(f, assume={("a", k): explore.full(32)}, plugin=pl, keep_trail=True)
+            ex.track_taint = True
+            ex.MAXSTEPS = 25000
+            ex.run()
+            status = "ok"
+        except AnalysisBroken as e:
+            status = "broken: %s" % e
+        hits = []
+        for h in pl.hits:
+            kind = h[1]
+            if kind == "maybe" and not h[3].env.get(("flag", "approx_dep")) and not h[3].env.get(("flag", "approx")):
+                kind = "definite"
+            hits.append((h[0].where(), h[0].src_fn, kind, h[2], explore.trail_lines(f, h[3].trail)))
+        out.append({"fn": fname, "param": a["name"], "field": "integer parameter", "value": -1, "status": status, "sites": len(pl.seen_sites), "hits": hits, "steps": ex.steps})
+    return out
+
+
+def check_int(ctx, cfg, tier, api, rule="R-IDX"):
+    b = build.build(cfg, ("inl",))
+    mhead = ir.load(b["inl"], [], bodies=True)
+    funcs = [fn for fn in api if fn in mhead.functions and not mhead.functions[fn].decl and any(a["type"] == "i32" for a in mhead.functions[fn].args)]
+    ctx.floor(rule, "exported functions taking an integer", len(funcs), 25)
+    results = []
+    with ProcessPoolExecutor(max_workers=min(16, os.cpu_count() or 4)) as pool:
+        for r in pool.map(_work_int, [(b["inl"], fn, cfg) for fn in funcs]):
+            results.extend(r)
+    n = 0
+    for r in results:
+        n += 1
+        inst = {"function": r["fn"], "parameter": r["param"], "table_subscript_sites": r["sites"], "config": cfg}
+        defs = [h for h in r["hits"] if h[2] == "definite"]
+        if defs:
+            where, srcfn, _k, detail, trail = defs[0]
+            ctx.violation(rule, "oob-int:%s:%s" % (r["fn"], r["param"]), "%s(%s arbitrary): %s is read in %s although the guards on the path admit that value (lines %s)"
+                          % (r["fn"], r["param"], detail, srcfn, trail), where, inst)
+        elif r["status"] != "ok":
+            ctx.undecided_site(rule, "%s(%s): %s" % (r["fn"], r["param"], r["status"]))
+        else:
+            for h in [h for h in r["hits"] if h[2] == "maybe"][:2]:
+                ctx.undecided_site(rule, "%s(%s): %s at %s" % (r["fn"], r["param"], h[3], h[0]))
+            ctx.ok(rule, inst, "every table subscript derived from the parameter stays inside the table on all exactly interpreted paths")
+    return n
+
+
 def check(ctx, cfg, tier, api, rule="R-IDX"):
     b = build.build(cfg, ("inl",))
     mhead = ir.load(b["inl"], [], bodies=True)
